@@ -384,6 +384,7 @@ func rulesC10(cx *Ctx) []Obligation {
 	// the sponge walks its whole input: chunk and limb windows tile [0, len(input))
 	obs = append(obs, ruleAbsorbTiling(cx, "C10/sponge/absorb-tiling", "poseidon", "(*BN254Chip).HashNoPad")...)
 	obs = append(obs, ruleSpongeOutput(cx)...)
+	obs = append(obs, ruleTwoToOneLanes(cx)...)
 	return obs
 }
 
